@@ -44,6 +44,11 @@ ReqKeyLoad(be, a, out, o) ==
     <<"C11.compatible_algs_consistent", o.isCompatibleOwn /\ o.compatibleAlgs = <<o.alg>> >>,
     <<"C11.reexport_loads_again", o.reexport.k = "ok" /\ o.reexport.pubRaw = a.key.raw /\ o.reexport.alg = o.alg>>,
     <<"C11.reexport_pem_loads_again", o.reexportPem.k = "ok" /\ o.reexportPem.pubRaw = a.key.raw>>,
+    <<"C11.reexport_loads_through_every_entry", \A i \in DOMAIN o.reloads :
+         o.reloads[i].k = "ok" /\ o.reloads[i].pubRaw = a.key.raw /\ o.reloads[i].sameBytes
+         /\ o.reloads[i].alg = ExpectedAlg(be, o.reloads[i].entry,
+                                           IF o.reloads[i].entry \in {"pkcs8-explicit", "der-explicit", "pem-explicit", "pkcs8-pem-explicit"} THEN o.alg ELSE "none",
+                                           a.key.type)>>,
     <<"C11.export_is_pkcs8", o.exportIsPkcs8>>
    } ELSE {})
 
